@@ -371,15 +371,25 @@ def d5(chk, prog):
         model.prims["cnvlib.parallel.pick_pool"] = lambda it, n: PoolStub(it, n)
         model.method_hooks.append(pool_hook)
 
-        def worker(it, cn, method, dpg, threshold, variants=None, skip_low=False, skip_outliers=10, min_weight=0, save_dataframe=False, rscript_path="Rscript", smooth_cbs=False, calls=calls):
-            calls.append((cn.meta.get("part"), method, dpg, repr(threshold), variants, skip_low, skip_outliers, min_weight, save_dataframe, rscript_path, smooth_cbs))
+        wfi = prog.fn("cnvlib.segmentation._do_segmentation")
+        wnames = [a.arg for a in wfi.node.args.args]
+        wdefaults = dict(zip(wnames[len(wnames) - len(wfi.node.args.defaults):], [ast.literal_eval(d) for d in wfi.node.args.defaults]))
+
+        def worker(it, *a, calls=calls, **k):
+            # bound like the real _do_segmentation (positional or keyword, its own defaults)
+            b = dict(wdefaults)
+            b.update(zip(wnames, a))
+            b.update(k)
+            cn = b["cnarr"]
+            calls.append((cn.meta.get("part"), b["method"], b["diploid_parx_genome"], repr(b["threshold"]), b["variants"], b["skip_low"], b["skip_outliers"], b["min_weight"],
+                          b["save_dataframe"], b["rscript_path"], b["smooth_cbs"]))
             out = make_ga("CopyNumArray", [dict(chromosome="chr1", start=0, end=1, gene="-", log2=0, probes=1)], {"sample_id": "S", "segments_of": cn.meta.get("part")}, exact=True)
-            return (out, f"header\nrows of {cn.meta.get('part')}\n") if save_dataframe else out
+            return (out, f"header\nrows of {cn.meta.get('part')}\n") if b["save_dataframe"] else out
         model.prims["cnvlib.segmentation._do_segmentation"] = worker
 
         def concat(it, g, others, concat_args=concat_args):
             others = list(it.iterate(others))
-            concat_args.append([o.meta.get("segments_of") for o in others])
+            concat_args.append([o.meta.get("segments_of") if isinstance(o, GA) else repr(o)[:40] for o in others])
             return make_ga("CopyNumArray", [dict(chromosome="chr1", start=0, end=1, gene="-", log2=0, probes=1)], {"sample_id": "S", "segments_of": "concat"}, exact=True)
         model.method_prims["concat"] = concat
         model.method_prims["sort_columns"] = lambda it, g: None
@@ -463,6 +473,52 @@ MUTANTS = [
     dict(name="haar on the whole array", file=_S, old='    if method == "flasso" or method.startswith("hmm"):', new='    if method in ("flasso", "haar") or method.startswith("hmm"):'),
     dict(name="none: end of first bin", file="cnvlib/segmentation/none.py", old="            cnarr.end.iat[-1],", new="            cnarr.end.iat[0],"),
     dict(name="segment_mean ignores weights", file="cnvlib/segmetrics.py", old='        return np.average(cnarr["log2"], weights=cnarr["weight"])', new='        return np.average(cnarr["log2"])'),
+    dict(name="seeded C03f: per-arm worker bound with functools.partial, skip_outliers left out", edits=[(_S, "import locale\n", "import functools\nimport locale\n"), (_S, """            rets = list(
+                pool.map(
+                    _ds,
+                    (
+                        (
+                            ca,
+                            method,
+                            diploid_parx_genome,
+                            threshold,
+                            variants,
+                            skip_low,
+                            skip_outliers,
+                            min_weight,
+                            save_dataframe,
+                            rscript_path,
+                            smooth_cbs,
+                        )
+                        for _, ca in cnarr.by_arm()
+                    ),
+                )
+            )""", """            segment_arm = functools.partial(_do_segmentation, method=method, diploid_parx_genome=diploid_parx_genome, threshold=threshold, variants=variants,
+                                            skip_low=skip_low, min_weight=min_weight, save_dataframe=save_dataframe, rscript_path=rscript_path, smooth_cbs=smooth_cbs)
+            rets = list(pool.map(segment_arm, (ca for _, ca in cnarr.by_arm())))""")]),
+    dict(name="twin: per-arm worker bound with functools.partial, every option forwarded", expect="silent", edits=[(_S, "import locale\n", "import functools\nimport locale\n"), (_S, """            rets = list(
+                pool.map(
+                    _ds,
+                    (
+                        (
+                            ca,
+                            method,
+                            diploid_parx_genome,
+                            threshold,
+                            variants,
+                            skip_low,
+                            skip_outliers,
+                            min_weight,
+                            save_dataframe,
+                            rscript_path,
+                            smooth_cbs,
+                        )
+                        for _, ca in cnarr.by_arm()
+                    ),
+                )
+            )""", """            segment_arm = functools.partial(_do_segmentation, method=method, diploid_parx_genome=diploid_parx_genome, threshold=threshold, variants=variants,
+                                            skip_low=skip_low, skip_outliers=skip_outliers, min_weight=min_weight, save_dataframe=save_dataframe, rscript_path=rscript_path, smooth_cbs=smooth_cbs)
+            rets = list(pool.map(segment_arm, (ca for _, ca in cnarr.by_arm())))""")]),
     dict(name="per-arm results combined in reverse", file=_S, old="        cna = cnarr.concat(rets)\n", new="        cna = cnarr.concat(rets[::-1])\n"),
     dict(name="parallel worker drops skip_low", file=_S, old="                            variants,\n                            skip_low,\n                            skip_outliers,\n                            min_weight,\n                            save_dataframe,\n                            rscript_path,\n                            smooth_cbs,", new="                            variants,\n                            False,\n                            skip_outliers,\n                            min_weight,\n                            save_dataframe,\n                            rscript_path,\n                            smooth_cbs,"),
     dict(name="whole-array call swaps skip_low and skip_outliers", file=_S, old="            variants,\n            skip_low,\n            skip_outliers,\n            min_weight,\n            save_dataframe,\n            rscript_path,\n        )", new="            variants,\n            skip_outliers,\n            skip_low,\n            min_weight,\n            save_dataframe,\n            rscript_path,\n        )"),
